@@ -128,7 +128,15 @@ var checks = map[string]*check{
 		models: []model{
 			{mod: "MC_Algo", quick: map[string]string{"Bs": "4", "ULen": "5", "VLen": "3"}, thorough: map[string]string{"Bs": "4", "ULen": "7", "VLen": "4"}},
 			{mod: "MC_Algo", quick: map[string]string{"Bs": "10", "ULen": "3", "VLen": "2"}, thorough: map[string]string{"Bs": "10", "ULen": "4", "VLen": "3"}},
-			{mod: "MC_Algo", quick: map[string]string{"Bs": "4", "ULen": "5", "VLen": "3", "AddBackWraps": "FALSE"}, expectViolation: "Inv"}},
+			{mod: "MC_Algo", quick: map[string]string{"Bs": "4", "ULen": "5", "VLen": "3", "AddBackWraps": "FALSE"}, expectViolation: "Inv"},
+			// recursive division (threshold 4) and the model of defect D25
+			{mod: "MC_Algo", quick: map[string]string{"Bs": "2", "DivRecThr": "4", "ULen": "11", "VLen": "5"}, thorough: map[string]string{"Bs": "2", "DivRecThr": "4", "ULen": "13", "VLen": "6"}},
+			{mod: "MC_Algo", quick: map[string]string{"Bs": "2", "DivRecThr": "4", "ULen": "9", "VLen": "4"}, thorough: map[string]string{"Bs": "4", "DivRecThr": "4", "ULen": "7", "VLen": "4"}},
+			{mod: "MC_Algo", quick: map[string]string{"Bs": "2", "DivRecThr": "4", "ULen": "11", "VLen": "5", "LowBlockAtB": "TRUE"}, expectViolation: "Inv"},
+			// multiplication and squaring: schoolbook, Karatsuba, unbalanced operands, under two threshold assignments
+			{mod: "MC_AlgoMul", quick: map[string]string{"Bs": "3", "XLen": "5", "YLen": "4"}, thorough: map[string]string{"Bs": "4", "XLen": "5", "YLen": "4"}},
+			{mod: "MC_AlgoMul", quick: map[string]string{"Bs": "3", "XLen": "5", "YLen": "3", "KarThr": "3", "BasicSqrThr": "3", "KarSqrThr": "4"},
+				thorough: map[string]string{"Bs": "3", "XLen": "6", "YLen": "4", "KarThr": "3", "BasicSqrThr": "3", "KarSqrThr": "4"}}},
 		gen: func(g *gen.G, thor bool) []gen.Program {
 			return append(append(gen.Nat(g, n(thor, 24, 160), n(thor, 40, 120)), gen.BigOps(g, n(thor, 10, 60))...), gen.BigQuo(g, n(thor, 10, 150))...)
 		},
